@@ -410,7 +410,7 @@ func (c *Ctx) ruleWideAndReduce(cfg string, box limbBox) {
 				}
 				pow := func(k uint) *big.Int { return new(big.Int).Lsh(big.NewInt(1), k) }
 				// X = lo + 2^255·msb(x31) + 2^256·(hi + 2^255·msb(x63)),  msb(b) = ⌊b/128⌋ = h7(b)
-				h7 := func(b string) *poly.Poly { return d.R.Var("h7(" + d.R.Var(b).Key() + ")") }
+				h7 := func(b string) *poly.Poly { return d.R.BitVar("h7(" + d.R.Var(b).Key() + ")") }
 				want := sv(0).Add(h7("x31").Scale(pow(255))).Add(sv(32).Scale(pow(256))).Add(h7("x63").Scale(pow(511)))
 				okCalls := len(calls) == 2 && calls[0] == (sbCall{0, 32}) && calls[1] == (sbCall{32, 32})
 				if got == nil {
@@ -475,7 +475,7 @@ func (c *Ctx) ruleWideAndReduce(cfg string, box limbBox) {
 								nonH = true
 							}
 							for v, e := range vars {
-								if !strings.HasPrefix(v, "h51(") || e != 1 {
+								if !strings.HasPrefix(v, "h51") || e != 1 {
 									nonH = true
 								}
 							}
